@@ -108,6 +108,11 @@ func famCancel(w *World, c *Case, rng *rand.Rand) {
 				s.Timeout = 30 * time.Minute
 			}
 			s.CtxCause = rng.Intn(2) == 0
+			if rng.Intn(3) == 0 {
+				// the call also carries a grpc-timeout header of its own, unrelated to (and far
+				// beyond) the caller's context: the peer must still be told when the caller gives up
+				s.GrpcTimeout = []string{"2H", "100M", "x"}[rng.Intn(3)]
+			}
 		}
 	}
 	if tgt == nil {
